@@ -52,11 +52,40 @@ def expr_family(res):
     if errs or total == 0: payloads.append(dict(kind="obligation", obligation=dict(correspondence="operator-tree family run", log="; ".join(errs) or "no records")))
     return total, payloads
 
+def semi_tie(res):
+    """C01, C02: the semicolon rule.  rs2v must have regenerated it (Tie 1); `svh semi` x drv_semi validate the grammar facts of
+    Semicolon.v against full_moon and the regenerated kernel against the binary (Tie 2).  Returns (records, payloads)."""
+    r = sh([SVH, "semi"], check=False)
+    j = subprocess.run([driver("drv_semi")], input=r.stdout, stdout=subprocess.PIPE, stderr=subprocess.PIPE, text=True)
+    tot, payloads = {}, []
+    for l in j.stdout.splitlines():
+        if l.startswith("SUMMARY"): tot = {k: int(v) for k, v in parse_kv(l).items()}
+        elif l.startswith("BAD") and len(payloads) < 3:
+            w = l.split()
+            payloads.append(dict(kind="input", check="semicolon-rule:" + w[1], region="semicolon-rule tie (every statement kind x next statement, 6 dialects)", family="semi", syntax=w[3],
+                                 source=bytes.fromhex(w[-2].lstrip("#")).decode() + ";\n" + bytes.fromhex(w[-1].lstrip("#")).decode() + "\n", record=" ".join(w[2:-2]),
+                                 expected="SemiRule.check_stmt_requires_semicolon (regenerated) = Semicolon.needs_semicolon; the binary keeps the semicolon exactly then; the two statements stay two"))
+    if r.returncode != 0 or j.returncode != 0 or not tot.get("records") or tot.get("bad", 0) != sum(1 for l in j.stdout.splitlines() if l.startswith("BAD")):
+        payloads.append(dict(kind="obligation", obligation=dict(correspondence="semicolon-rule tie", log=(r.stderr + j.stderr)[-800:] or "no records")))
+    return tot, payloads
+
 def run_prop(res, prop, extra_obligations=1):
     sp = SPEC[prop]
-    proof = proof_stage(res, prop, extra_obligations=extra_obligations)
+    semi = prop in ("C01", "C02")
+    if semi:
+        extra_obligations += 2          # the translation of the semicolon rule, and its tie
+        t_ok, t_log = rs2v("semicolon_rule")
+    proof = proof_stage(res, prop, extra_obligations=extra_obligations) if (not semi or t_ok) else dict(ok=False, discharged=0, theorems=[], log=t_log, broken_at="rs2v: " + t_log.strip()[-300:])
+    if semi and not t_ok:
+        res.coverage.update(obligations=extra_obligations, discharged=0, checker_cmd="rs2v /repo coq/gen", trusted_base=list(TRUSTED_BASE))
     build_harness(); build_ml()
     ok, payloads = validate(res, prop, sp["judge"], sp["flags_a"], sp["flags_b"], sp["mode_a"], sp["mode_b"], region_a=sp.get("region_a", True), dirs=sp.get("dirs"))
+    if semi:
+        tot, more = semi_tie(res)
+        payloads = more + payloads; ok = ok and not more
+        res.coverage["evaluations"] = res.coverage.get("evaluations", 0) + tot.get("records", 0)
+        res.coverage["input_distribution"]["semicolon_rule_tie"] = tot
+        res.coverage["kernels_translated"] = ["src/formatters/block.rs :: var_has_parentheses, check_stmt_requires_semicolon -> coq/gen/SemiRule.v (rs2v)"]
     if prop == "C01":
         n_expr, more = expr_family(res)
         payloads = more + payloads; ok = ok and not more
@@ -78,6 +107,12 @@ def run_prop(res, prop, extra_obligations=1):
 def replay(payload, prop):
     build_harness(); build_ml()
     sp = SPEC[prop]
+    if payload.get("family") == "semi":
+        r = sh([SVH, "semi"], check=False)
+        j = subprocess.run([driver("drv_semi")], input=r.stdout, stdout=subprocess.PIPE, text=True)
+        bad = [l for l in j.stdout.splitlines() if l.startswith("BAD")]
+        print("\n".join(l[:300] for l in bad[:10]) or j.stdout[-300:])
+        return 1 if bad else 0
     if payload.get("family") == "expr":
         r = sh([SVH, "c05", "--one", payload["syntax"], payload["context"], payload["source_hex"], str(payload["width"])], check=False)
         print(r.stdout[:2000])
